@@ -32,6 +32,8 @@ class FakeSocket:
         self.created_at = net.loop.time()
         self.closed_at: float | None = None
         self.on_send: Callable[[FakeSocket, bytes], None] | None = None
+        self.on_recv: Callable[[FakeSocket, Any], None] | None = None
+        self.recv_count = 0
         net.sockets.append(self)
         if net.on_socket is not None:
             net.on_socket(self)
@@ -76,6 +78,9 @@ class FakeSocket:
         if not self.inbox:
             raise BlockingIOError(errno.EAGAIN, "would block")
         item = self.inbox.pop(0)
+        self.recv_count += 1
+        if self.on_recv is not None:
+            self.on_recv(self, item)
         if isinstance(item, BaseException):
             raise item
         return item
